@@ -1,9 +1,12 @@
 #!/bin/sh
 # usage: seedtest.sh <Cxx> <dir with patch.diff> [tier]  — applies the seeded change to /repo, runs the check, undoes it.
+# The evidence file is put back afterwards: committed evidence must describe a run against /repo itself.
 P=$1; D=$2; T=${3:-quick}
 cd /repo && git status --porcelain | grep -q . && { echo "/repo dirty"; exit 2; }
 git -C /repo apply "$D/patch.diff" || { echo "patch does not apply"; exit 2; }
+cp /verif/evidence/$P.json /tmp/.seedtest-evidence-$P.json 2>/dev/null
 cd /verif && ./check $P $T; rc=$?
 git -C /repo checkout -- . ; git -C /repo clean -fdq
+[ -f /tmp/.seedtest-evidence-$P.json ] && mv /tmp/.seedtest-evidence-$P.json /verif/evidence/$P.json
 echo "seedtest $P rc=$rc"
 exit $rc
